@@ -17,6 +17,13 @@ Abstract namespaces: values are token lists  {"l": text} | {"p": param} | {"r": 
 its value; "raw": True when it does not pass through pydantic, i.e. in user variables);  `render_*` turns them
 into the YAML-shaped document for the real code.  ns["userVars"] = [[name, value]…] (the `global` user
 variables), ns["varFiles"] = [[name…]…] (how they are spread over variable files), ns["path"] = direct | conf.
+Component templates carry "replicate" (None | number) and "aggregate"; {"p": "replica"} in their arguments is the
+`%(replica)s` of the runtime unless the template declares a parameter of that name.  Step names may be spelled
+`stage<N>.name`.
+
+Histories: every case is compiled in this one process (HISTORY); `second_pass` compiles a sample again at the end;
+a failing answer is re-computed in pristine child processes (`isolated`) to tell a wrong function of the namespace
+from a dependence on earlier compilations, in which case the replay carries the `history` that reproduces it.
 """
 from __future__ import annotations
 
@@ -1519,7 +1526,7 @@ def _zygote_main():
     sys.stdout.write("\n@@ANSWERS@@" + json.dumps(answers))
 
 
-def isolated(seqs, timeout=240):
+def isolated(seqs, timeout=120):
     """answers for the last namespace of each sequence, each sequence in a process of its own"""
     code = "import sys, json; sys.path[:0] = json.loads(sys.argv[1]); import harness.c06 as H; H._zygote_main()"
     try:
